@@ -1,2 +1,491 @@
-(* Node- and cluster-level case kinds (L2/L3); filled in by later layers. *)
+(* Cluster-level replay: runs the extracted step function on the label
+   sequences the Go harness executed on real nodes, compares every observation
+   (node dumps, live RPCs, resolved futures), and runs the property monitors on
+   the implementation's own observations. *)
+open Model
+
+let rec pos_of_int (i : int) : positive =
+  if i = 1 then XH else if i land 1 = 0 then XO (pos_of_int (i lsr 1)) else XI (pos_of_int (i lsr 1))
+let n_of_int (i : int) : n = if i = 0 then N0 else Npos (pos_of_int i)
+let rec int_of_pos = function XH -> 1 | XO p -> 2 * int_of_pos p | XI p -> 2 * int_of_pos p + 1
+let int_of_n = function N0 -> 0 | Npos p -> int_of_pos p
+let ns (x : n) = string_of_int (int_of_n x)
+let n_of_s s = n_of_int (int_of_string s)
+let b01 b = if b then "1" else "0"
+let join_or l = if l = [] then "-" else String.concat "," l
+
+(* ---------- canonical strings (must match harness/sim) ---------- *)
+let conf_s (c : config) : string =
+  Printf.sprintf "%s{%s}" (ns c.c_index)
+    (String.concat "," (List.map (fun (id, v) -> ns id ^ ":" ^ b01 v) c.c_members))
+
+let kind_s = function KNoop -> "n" | KOp p -> "o" ^ ns p | KConf c -> "c" ^ conf_s c
+let entry_s (e : entry) = Printf.sprintf "%s:%s:%s" (ns e.e_index) (ns e.e_term) (kind_s e.e_kind)
+let entries_s es = if es = [] then "-" else String.concat "," (List.map entry_s es)
+
+let data_s (bs : n list) : string =
+  if bs = [] then "-"
+  else if List.length bs mod 4 <> 0 then
+    "x" ^ String.concat "" (List.map (fun b -> Printf.sprintf "%02x" (int_of_n b)) bs)
+  else begin
+    let rec go = function
+      | a :: b :: c :: d :: r ->
+          string_of_int (((int_of_n a * 256 + int_of_n b) * 256 + int_of_n c) * 256 + int_of_n d) :: go r
+      | _ -> [] in
+    String.concat "." (go bs)
+  end
+
+let role_s = function Leader -> "L" | Follower -> "F" | PreCandidate -> "P" | Candidate -> "C" | Shutdown -> "S"
+let opt_id = function None -> "-" | Some i -> ns i
+
+let log_s (l : entry list) : string =
+  match l with
+  | [] -> "closed"
+  | p :: rest ->
+      let ph = if rest = [] then Printf.sprintf "%s:%s:p" (ns p.e_index) (ns p.e_term)
+        else Printf.sprintf "%s:?:p" (ns p.e_index) in
+      String.concat "," (ph :: List.map entry_s rest)
+
+let node_s (now : n) (m : node) : string =
+  if m.n_role = Shutdown then "down"
+  else if m.n_frozen then "frozen"
+  else begin
+    let fol = List.map (fun (id, f) ->
+        Printf.sprintf "%s:%s:%s:%s" (ns id) (ns f.f_next) (ns f.f_match)
+          (match f.f_snap with None -> "-" | Some (_, pos) -> "S" ^ ns pos)) m.n_followers in
+    let pend = List.map (fun (i, _) -> ns i) m.n_pending in
+    let ro = List.sort compare (List.map (fun o ->
+        Printf.sprintf "%d:%s:%s:%s" (match o.ro_type with OLinearizable -> 1 | OLease -> 2 | OReplicated -> 0)
+          (ns o.ro_payload) (ns o.ro_read_index) (b01 o.ro_verified)) m.n_ro) in
+    let partial = match m.n_partial with
+      | None -> "-"
+      | Some s -> Printf.sprintf "%s:%s:%d" (ns s.s_index) (ns s.s_term) (List.length s.s_data) in
+    let applies = List.map (fun ((i, t), p) -> Printf.sprintf "%s:%s:%s" (ns i) (ns t) (ns p)) m.n_applies in
+    Printf.sprintf
+      "role=%s term=%s vote=%s commit=%s applied=%s lii=%s lit=%s leader=%s log=%s conf=%s cconf=%s fol=%s pend=%s ro=%s sv=%s lease=%s contact=%s partial=%s fsm=%s applies=%s"
+      (role_s m.n_role) (ns m.n_term) (opt_id m.n_vote) (ns m.n_commit) (ns m.n_applied) (ns m.n_lii) (ns m.n_lit)
+      (opt_id m.n_leader) (log_s m.n_log)
+      (match m.n_conf with None -> "-" | Some c -> conf_s c)
+      (match m.n_cconf with None -> "-" | Some c -> conf_s c)
+      (join_or fol) (join_or pend) (join_or ro) (b01 m.n_should_verify)
+      (b01 (lease_valid now m)) (b01 (recent_contact now m)) partial
+      (join_or (List.map ns m.n_fsm)) (join_or applies)
+  end
+
+let req_s = function
+  | ReqAE q -> Printf.sprintf "AE %s %s %s %s %s %s" (ns q.ae_leader) (ns q.ae_term) (ns q.ae_commit)
+                 (ns q.ae_prev_index) (ns q.ae_prev_term) (entries_s q.ae_entries)
+  | ReqRV q -> Printf.sprintf "RV %s %s %s %s %s" (ns q.rv_cand) (ns q.rv_term) (ns q.rv_last_index)
+                 (ns q.rv_last_term) (b01 q.rv_prevote)
+  | ReqIS q -> Printf.sprintf "IS %s %s %s %s %s %s %s %s" (ns q.is_leader) (ns q.is_term) (ns q.is_lii) (ns q.is_lit)
+                 (conf_s q.is_conf) (ns q.is_offset) (data_s q.is_bytes) (b01 q.is_done)
+
+let resp_s = function
+  | RespAE p -> Printf.sprintf "%s/%s/%s" (ns p.aer_term) (b01 p.aer_success) (ns p.aer_index)
+  | RespRV p -> Printf.sprintf "%s/%s" (ns p.rvr_term) (b01 p.rvr_granted)
+  | RespIS p -> Printf.sprintf "%s/%s" (ns p.isr_term) (ns p.isr_written)
+
+let result_s = function
+  | FNotLeader -> "NotLeader" | FInvalidLease -> "InvalidLease" | FNoCommitThisTerm -> "NoCommit"
+  | FPendingConfiguration -> "PendingConf"
+  | FOp (i, t, p, r) -> Printf.sprintf "Op:%s:%s:%s:%s" (ns i) (ns t) (ns p) (ns r)
+  | FRead (p, r) -> Printf.sprintf "Read:%s:%s" (ns p) (ns r)
+  | FConf c -> "Conf:" ^ conf_s c
+
+(* ---------- trace parsing ---------- *)
+type obs = {
+  mutable nodes : (string * string) list;                       (* id, state string *)
+  mutable calls : (int * string * string * string * string * string) list;  (* id src dst st req resp *)
+  mutable results : (int * string * string) list;               (* fid node res *)
+  mutable notes : string list;
+}
+
+let kv (s : string) : (string * string) list =
+  List.filter_map (fun tok ->
+      match String.index_opt tok '=' with
+      | Some i -> Some (String.sub tok 0 i, String.sub tok (i + 1) (String.length tok - i - 1))
+      | None -> None) (String.split_on_char ' ' s)
+let field s k = try List.assoc k (kv s) with Not_found -> "?"
+
+let split_arrow (s : string) : string * string =
+  match Str.bounded_split_delim (Str.regexp_string " => ") s 2 with
+  | [a; b] -> (a, b) | _ -> (s, "-")
+
+(* ---------- monitors over the implementation's observations ---------- *)
+type mon = {
+  tname : string;
+  mutable step : int;
+  mutable label : string;
+  leaders : (int, string) Hashtbl.t;                 (* term -> leader id (C02) *)
+  applied : (int, string) Hashtbl.t;                 (* index -> "term:payload" (C01) *)
+  committed : (int, string) Hashtbl.t;               (* index -> entry string, learnt from commit indexes (C07) *)
+  terms : (string, int) Hashtbl.t;                   (* node -> highest term seen (C08) *)
+  votes : (string, string) Hashtbl.t;                (* "voter/term" -> candidate (C08) *)
+  lastlog : (string, string) Hashtbl.t;              (* node -> last observed log (disk content while down) *)
+  submitted : (int, (string * int * int * int)) Hashtbl.t;  (* fid -> node, type, payload, step *)
+  acked : (int, int * int) Hashtbl.t;                (* fid -> (fsm position, step of ack) *)
+  mutable nfid : int;
+  mutable voters : int;
+  mutable static_membership : bool;
+  mutable viol : (string * string) list;             (* property, text *)
+}
+
+let violate (m : mon) (prop : string) (text : string) =
+  if not (List.exists (fun (p, _) -> p = prop) m.viol) then
+    m.viol <- (prop, Printf.sprintf "%s step %d (%s): %s" m.tname m.step m.label text) :: m.viol
+
+let parse_log (s : string) : (int * string) list =
+  (* "0:?:p,1:1:c1{0:1,1:1},2:1:n" -> [(1,"1:c1{..}"); (2,"1:n")] ; commas inside {} are not separators *)
+  let parts = ref [] and depth = ref 0 and cur = Buffer.create 32 in
+  String.iter (fun c ->
+      if c = '{' then incr depth; if c = '}' then decr depth;
+      if c = ',' && !depth = 0 then (parts := Buffer.contents cur :: !parts; Buffer.clear cur)
+      else Buffer.add_char cur c) s;
+  parts := Buffer.contents cur :: !parts;
+  List.filter_map (fun e ->
+      match String.index_opt e ':' with
+      | Some i ->
+          let idx = int_of_string (String.sub e 0 i) in
+          let rest = String.sub e (i + 1) (String.length e - i - 1) in
+          if String.length rest > 0 && (rest.[String.length rest - 1] = 'p' && (String.length rest < 2 || rest.[String.length rest - 2] = ':')) then None
+          else Some (idx, rest)
+      | None -> None) (List.rev !parts)
+
+let int_field s k = try int_of_string (field s k) with _ -> 0
+
+let monitor_obs (m : mon) (o : obs) =
+  let up = List.filter (fun (_, s) -> s <> "down" && s <> "frozen") o.nodes in
+  (* C02: one leader per term *)
+  let see_leader term id =
+    match Hashtbl.find_opt m.leaders term with
+    | Some other when other <> id ->
+        violate m "C02" (Printf.sprintf "two leaders in term %d: node %s and node %s" term other id)
+    | Some _ -> ()
+    | None -> Hashtbl.replace m.leaders term id in
+  List.iter (fun (id, s) -> if field s "role" = "L" then see_leader (int_field s "term") id) up;
+  List.iter (fun (_, src, _, _, req, _) ->
+      match String.split_on_char ' ' req with
+      | "AE" :: leader :: term :: _ | "IS" :: leader :: term :: _ ->
+          if leader <> src then violate m "C02" (Printf.sprintf "request from %s names leader %s" src leader);
+          see_leader (int_of_string term) leader
+      | _ -> ()) o.calls;
+  (* C08: terms never decrease; one real vote per term *)
+  List.iter (fun (id, s) ->
+      let t = int_field s "term" in
+      (match Hashtbl.find_opt m.terms id with
+       | Some old when t < old -> violate m "C08" (Printf.sprintf "term of node %s went from %d to %d" id old t)
+       | _ -> ());
+      Hashtbl.replace m.terms id (max t (try Hashtbl.find m.terms id with Not_found -> 0))) up;
+  List.iter (fun (_, _, dst, st, req, resp) ->
+      match String.split_on_char ' ' req, String.split_on_char '/' resp with
+      | ["RV"; cand; term; _; _; "0"], [rterm; "1"] when st = "A" ->
+          let key = dst ^ "/" ^ term in
+          ignore rterm;
+          (match Hashtbl.find_opt m.votes key with
+           | Some c when c <> cand ->
+               violate m "C08" (Printf.sprintf "node %s granted its term-%s vote to %s and to %s" dst term c cand)
+           | _ -> Hashtbl.replace m.votes key cand)
+      | _ -> ()) o.calls;
+  (* responses never carry a term lower than an earlier one of the same node *)
+  (* C01: same index => same term and payload; increasing per FSM lineage *)
+  List.iter (fun (id, s) ->
+      let aps = field s "applies" in
+      if aps <> "-" && aps <> "?" then begin
+        let last = ref (-1) in
+        List.iter (fun a ->
+            match String.split_on_char ':' a with
+            | [i; t; p] ->
+                let i = int_of_string i in
+                if i <= !last then violate m "C01" (Printf.sprintf "node %s applied index %d after %d" id i !last);
+                last := i;
+                let v = t ^ ":" ^ p in
+                (match Hashtbl.find_opt m.applied i with
+                 | Some w when w <> v ->
+                     violate m "C01" (Printf.sprintf "index %d applied as (term:payload) %s and as %s (node %s)" i w v id)
+                 | _ -> Hashtbl.replace m.applied i v)
+            | _ -> ()) (String.split_on_char ',' aps)
+      end) up;
+  (* remember logs (what is on disk while a node is down) *)
+  List.iter (fun (id, s) -> Hashtbl.replace m.lastlog id (field s "log")) up;
+  (* C06: log matching between every two observed logs *)
+  let logs = List.map (fun (id, s) -> (id, parse_log (field s "log"))) up in
+  List.iter (fun (a, la) ->
+      List.iter (fun (b, lb) ->
+          if a < b then
+            List.iter (fun (i, e) ->
+                match List.assoc_opt i lb with
+                | Some e' ->
+                    let term x = List.hd (String.split_on_char ':' x) in
+                    if term e = term e' then begin
+                      if e <> e' then violate m "C06" (Printf.sprintf "nodes %s and %s hold different entries with index %d and term %s" a b i (term e));
+                      List.iter (fun (j, f) ->
+                          if j < i then match List.assoc_opt j lb with
+                            | Some f' when f <> f' ->
+                                violate m "C06" (Printf.sprintf "nodes %s and %s agree at index %d (term %s) but differ at index %d" a b i (term e) j)
+                            | _ -> ()) la
+                    end
+                | None -> ()) la) logs) logs;
+  (* committed entries: everything up to a node's commit index *)
+  List.iter (fun (id, s) ->
+      let c = int_field s "commit" in
+      List.iter (fun (i, e) ->
+          if i <= c then
+            match Hashtbl.find_opt m.committed i with
+            | Some e' when e' <> e ->
+                violate m "C01" (Printf.sprintf "index %d committed as %s and as %s (node %s)" i e' e id)
+            | _ -> Hashtbl.replace m.committed i e) (List.assoc id logs)) up;
+  (* C07: a leader holds every committed entry *)
+  List.iter (fun (id, s) ->
+      if field s "role" = "L" then begin
+        let l = List.assoc id logs and lii = int_field s "lii" in
+        Hashtbl.iter (fun i e ->
+            if i > lii then
+              match List.assoc_opt i l with
+              | Some e' when e' = e -> ()
+              | Some e' -> violate m "C07" (Printf.sprintf "leader %s of term %s has %s at committed index %d (committed: %s)" id (field s "term") e' i e)
+              | None -> violate m "C07" (Printf.sprintf "leader %s of term %s lacks committed index %d (%s)" id (field s "term") i e)) m.committed
+      end) up;
+  (* C10: every FSM holds a prefix of the committed operation sequence *)
+  let ops = Hashtbl.fold (fun i e acc -> (i, e) :: acc) m.committed [] |> List.sort compare
+            |> List.filter_map (fun (_, e) -> match String.split_on_char ':' e with
+                | [_; k] when String.length k > 0 && k.[0] = 'o' -> Some (String.sub k 1 (String.length k - 1))
+                | _ -> None) in
+  List.iter (fun (id, s) ->
+      let fsm = field s "fsm" in
+      if fsm <> "-" then begin
+        let have = String.split_on_char ',' fsm in
+        let rec prefix a b = match a, b with
+          | [], _ -> true
+          | x :: a', y :: b' -> x = y && prefix a' b'
+          | _ :: _, [] -> false in
+        if not (prefix have ops) then
+          violate m "C10" (Printf.sprintf "state machine of node %s holds [%s], not a prefix of the committed operations [%s]" id fsm (String.concat "," ops))
+      end) up;
+  (* C11: applied and commit never exceed what the log/snapshot boundary covers; lii <= applied *)
+  List.iter (fun (id, s) ->
+      if int_field s "applied" > int_field s "commit" then
+        violate m "C11" (Printf.sprintf "node %s: applied %d > commit %d" id (int_field s "applied") (int_field s "commit"))) up;
+  (* futures: C03 (truthful), C04 (quorum on disk), C05/C17 (reads not stale) *)
+  List.iter (fun (fid, node, res) ->
+      match String.split_on_char ':' res with
+      | ["Op"; i; t; p; r] ->
+          let i = int_of_string i in
+          (match Hashtbl.find_opt m.submitted fid with
+           | Some (_, _, payload, _) when string_of_int payload <> p ->
+               violate m "C03" (Printf.sprintf "future %d returned payload %s, submitted %d" fid p payload)
+           | _ -> ());
+          (match Hashtbl.find_opt m.applied i with
+           | Some v when v = t ^ ":" ^ p -> ()
+           | Some v -> violate m "C03" (Printf.sprintf "future %d reports index %d as %s:%s but %s was applied there" fid i t p v)
+           | None -> violate m "C03" (Printf.sprintf "future %d succeeded for index %d which no state machine has applied" fid i));
+          Hashtbl.replace m.acked fid (int_of_string r, m.step);
+          (* C04: a majority of voters hold the entry on disk *)
+          if m.static_membership then begin
+            let holders = Hashtbl.fold (fun _ log acc ->
+                match List.assoc_opt i (parse_log log) with
+                | Some e when e = t ^ ":o" ^ p -> acc + 1
+                | _ -> acc) m.lastlog 0 in
+            if 2 * holders <= m.voters then
+              violate m "C04" (Printf.sprintf "future %d acknowledged index %d with the entry in %d of %d logs" fid i holders m.voters)
+          end
+      | ["Read"; _; r] ->
+          let r = int_of_string r in
+          (match Hashtbl.find_opt m.submitted fid with
+           | Some (_, ty, _, sstep) ->
+               Hashtbl.iter (fun f (pos, astep) ->
+                   if astep < sstep && pos > r then
+                     violate m (if ty = 1 then "C05" else "C17")
+                       (Printf.sprintf "read %d (submitted at step %d to node %s) saw %d operations but operation future %d, acknowledged at step %d, was number %d"
+                          fid sstep node r f astep pos)) m.acked
+           | None -> ())
+      | _ -> ()) o.results
+
+(* C15: at the end of the fault-free tail *)
+let monitor_tail (m : mon) (o : obs) =
+  let up = List.filter (fun (_, s) -> s <> "down" && s <> "frozen") o.nodes in
+  let members = List.filter (fun (id, s) -> let c = field s "conf" in c <> "-" && c <> "0{}" && ignore id = ()) up in
+  let leaders = List.filter (fun (_, s) -> field s "role" = "L") members in
+  if List.length members * 2 > m.voters && m.static_membership then begin
+    if List.length leaders <> 1 then
+      violate m "C15" (Printf.sprintf "%d leaders after the fault-free tail" (List.length leaders))
+    else begin
+      let (_, ls) = List.hd leaders in
+      List.iter (fun (id, s) ->
+          if field s "fsm" <> field ls "fsm" then
+            violate m "C15" (Printf.sprintf "node %s did not catch up: fsm %s vs leader %s" id (field s "fsm") (field ls "fsm"))) members
+    end
+  end
+
+(* ---------- replay ---------- *)
+let first_diff (a : string) (b : string) : string =
+  let ta = String.split_on_char ' ' a and tb = String.split_on_char ' ' b in
+  let rec go x y = match x, y with
+    | u :: x', v :: y' -> if u = v then go x' y' else Printf.sprintf "model{%s} impl{%s}" u v
+    | [], [] -> "same"
+    | u :: _, [] -> "model{" ^ u ^ "} impl{}"
+    | [], v :: _ -> "model{} impl{" ^ v ^ "}" in
+  go ta tb
+
+let parse_label (w : world) (cmap : (int, n) Hashtbl.t) (l : string) : label option =
+  let f = Array.of_list (String.split_on_char ' ' l) in
+  let node i = n_of_s f.(i) in
+  let call i = try Some (Hashtbl.find cmap (int_of_string f.(i))) with Not_found -> None in
+  ignore w;
+  match f.(0) with
+  | "TICK" -> Some (LTick (node 1))
+  | "ELECTION" -> Some (LElection (node 1))
+  | "HEARTBEAT" -> Some (LHeartbeat (node 1))
+  | "SNAPSHOT" -> Some (LSnapshot (node 1))
+  | "DELIVER" -> Option.map (fun c -> LDeliver c) (call 1)
+  | "DUP" -> Option.map (fun c -> LDup c) (call 1)
+  | "REPLY" -> Option.map (fun c -> LReply c) (call 1)
+  | "FAIL" -> Option.map (fun c -> LFail c) (call 1)
+  | "SUBMIT" -> Some (LSubmit (node 1, (match f.(2) with "0" -> OReplicated | "1" -> OLinearizable | _ -> OLease), node 3))
+  | "ADD" -> Some (LAddServer (node 1, node 2, f.(3) = "1"))
+  | "REMOVE" -> Some (LRemoveServer (node 1, node 2))
+  | "BUDGET" -> Some (LBudget (node 1, node 2))
+  | "CRASH" -> Some (LCrash (node 1))
+  | "RESTART" -> Some (LRestart (node 1))
+  | _ -> None
+
+let cstate_s = function CPending -> "P" | CAnswered -> "A" | CWaiting -> "W" | CDone -> "D"
+
+type tstate = {
+  mutable w : world;
+  cmap : (int, n) Hashtbl.t;           (* impl call id -> model call id *)
+  mutable seen_results : (int * string) list;
+  mutable diverged : bool;
+}
+
+let mismatches = ref 0
+let traces = ref 0
+let steps = ref 0
+let out_lines : string list ref = ref []
+let say s = out_lines := s :: !out_lines
+
+let compare_obs (ts : tstate) (m : mon) (o : obs) =
+  let w = ts.w in
+  let bad what detail =
+    if not ts.diverged then begin
+      ts.diverged <- true;
+      incr mismatches;
+      say (Printf.sprintf "MISMATCH trace=%s step=%d label=%s what=%s %s" m.tname m.step m.label what detail)
+    end in
+  (* nodes *)
+  List.iter (fun (id, s) ->
+      match get_node w (n_of_s id) with
+      | None -> bad ("node " ^ id) "unknown to the model"
+      | Some mn ->
+          let ms = node_s w.w_now mn in
+          if ms <> s then bad ("node " ^ id) (first_diff ms s)) o.nodes;
+  (* calls: bind new implementation calls to model calls with the same content *)
+  let live_model = List.filter (fun c -> c.c_state <> CDone) w.w_calls in
+  let bound = Hashtbl.fold (fun _ v acc -> v :: acc) ts.cmap [] in
+  List.iter (fun (id, src, dst, _, req, _) ->
+      if not (Hashtbl.mem ts.cmap id) then
+        match List.find_opt (fun c -> not (List.mem c.c_id bound) && not (Hashtbl.fold (fun _ v a -> a || v = c.c_id) ts.cmap false)
+                                      && ns c.c_src = src && ns c.c_dst = dst && req_s c.c_req = req) live_model with
+        | Some c -> Hashtbl.replace ts.cmap id c.c_id
+        | None -> bad (Printf.sprintf "call %d %s->%s" id src dst) ("impl sent {" ^ req ^ "} which the model did not")) o.calls;
+  List.iter (fun (id, _, _, st, _, resp) ->
+      match Hashtbl.find_opt ts.cmap id with
+      | None -> ()
+      | Some mid ->
+          (match List.find_opt (fun c -> c.c_id = mid) w.w_calls with
+           | None -> ()
+           | Some c ->
+               let mst = cstate_s c.c_state in
+               let mresp = match c.c_state, c.c_resp with
+                 | CAnswered, Some p -> resp_s p | CAnswered, None -> "ERR" | _ -> "-" in
+               if mst <> st then bad (Printf.sprintf "call %d state" id) (Printf.sprintf "model{%s} impl{%s}" mst st)
+               else if mresp <> resp then bad (Printf.sprintf "call %d response" id) (Printf.sprintf "model{%s} impl{%s}" mresp resp))) o.calls;
+  List.iter (fun c ->
+      if not (Hashtbl.fold (fun _ v a -> a || v = c.c_id) ts.cmap false) then
+        bad (Printf.sprintf "model call %s->%s" (ns c.c_src) (ns c.c_dst)) ("model sent {" ^ req_s c.c_req ^ "} which the impl did not")) live_model;
+  (* results *)
+  let model_results = List.concat_map (fun mn -> List.map (fun (fid, r) -> (int_of_n fid, result_s r)) mn.n_results) w.w_nodes in
+  let fresh = List.filter (fun r -> not (List.mem r ts.seen_results)) model_results in
+  let impl = List.map (fun (fid, _, r) -> (fid, r)) o.results in
+  List.iter (fun r -> if not (List.mem r impl) then bad (Printf.sprintf "future %d" (fst r)) ("model resolved it with {" ^ snd r ^ "}, impl did not")) fresh;
+  List.iter (fun r -> if not (List.mem r fresh) then bad (Printf.sprintf "future %d" (fst r)) ("impl resolved it with {" ^ snd r ^ "}, model did not")) impl;
+  ts.seen_results <- fresh @ ts.seen_results;
+  (* outcome *)
+  List.iter (fun mn -> if mn.n_out <> Model.Ok then bad (Printf.sprintf "node %s" (ns mn.n_id)) "model predicts a fatal error or panic here") w.w_nodes
+
+let run_trace_file (path : string) =
+  let ic = open_in path in
+  let ts = ref None and mon = ref None and cur = ref None in
+  let tail_seen = ref false in
+  let flush_obs () =
+    (match !ts, !mon, !cur with
+     | Some t, Some m, Some o ->
+         monitor_obs m o;
+         if !tail_seen then (monitor_tail m o; tail_seen := false);
+         if not t.diverged then compare_obs t m o
+     | _ -> ());
+    cur := None in
+  let finish () =
+    flush_obs ();
+    (match !mon with
+     | Some m -> List.iter (fun (p, t) -> say (Printf.sprintf "IMPL-VIOLATION %s %s" p t)) (List.rev m.viol)
+     | None -> ());
+    ts := None; mon := None in
+  (try
+     while true do
+       let line = input_line ic in
+       let f = String.split_on_char ' ' line in
+       match f with
+       | "TRACE" :: _ ->
+           finish ();
+           incr traces;
+           let k = kv line in
+           let ids = List.map n_of_s (String.split_on_char ',' (List.assoc "ids" k)) in
+           let boot = List.map n_of_s (String.split_on_char ',' (List.assoc "boot" k)) in
+           let w = init_world ids boot (n_of_s (List.assoc "et" k)) (n_of_s (List.assoc "ld" k)) in
+           ts := Some { w; cmap = Hashtbl.create 64; seen_results = []; diverged = false };
+           mon := Some { tname = Printf.sprintf "%s#%d(%s)" (Filename.basename path) !traces (List.assoc "family" k);
+                         step = 0; label = "INIT"; leaders = Hashtbl.create 8; applied = Hashtbl.create 32;
+                         committed = Hashtbl.create 32; terms = Hashtbl.create 8; votes = Hashtbl.create 16;
+                         lastlog = Hashtbl.create 8; submitted = Hashtbl.create 32; acked = Hashtbl.create 32; nfid = 0;
+                         voters = List.length boot; static_membership = true; viol = [] }
+       | "STEP" :: i :: rest ->
+           flush_obs ();
+           incr steps;
+           let label = String.concat " " rest in
+           (match !ts, !mon with
+            | Some t, Some m ->
+                m.step <- int_of_string i; m.label <- label;
+                (match rest with
+                 | "SUBMIT" :: node :: ty :: p :: _ ->
+                     Hashtbl.replace m.submitted m.nfid (node, int_of_string ty, int_of_string p, m.step); m.nfid <- m.nfid + 1
+                 | ("ADD" | "REMOVE") :: _ -> m.nfid <- m.nfid + 1; m.static_membership <- false
+                 | _ -> ());
+                if label <> "INIT" && not t.diverged then
+                  (match parse_label t.w t.cmap label with
+                   | Some l -> t.w <- macro t.w l
+                   | None ->
+                       t.diverged <- true; incr mismatches;
+                       say (Printf.sprintf "MISMATCH trace=%s step=%s label=%s what=label the model has no call with that id" m.tname i label))
+            | _ -> ());
+           cur := Some { nodes = []; calls = []; results = []; notes = [] }
+       | "NODE" :: id :: rest ->
+           (match !cur with Some o -> o.nodes <- o.nodes @ [(id, String.concat " " rest)] | None -> ())
+       | "CALL" :: id :: src :: dst :: st :: rest ->
+           let (req, resp) = split_arrow (String.concat " " rest) in
+           (match !cur with Some o -> o.calls <- o.calls @ [(int_of_string id, src, dst, st, req, resp)] | None -> ())
+       | "RESULT" :: fid :: node :: res :: _ ->
+           (match !cur with Some o -> o.results <- o.results @ [(int_of_string fid, node, res)] | None -> ())
+       | "TAIL" :: _ -> tail_seen := true; (match !cur with Some o -> (match !mon with Some m -> monitor_tail m o | None -> ()) | None -> ())
+       | "IMPL-VIOLATION" :: _ -> say line
+       | "HARNESS-ERROR" :: _ -> say ("HARNESS-ERROR " ^ line); (match !ts with Some t -> t.diverged <- true | None -> ())
+       | "END" :: _ -> finish ()
+       | _ -> ()
+     done
+   with End_of_file -> finish (); close_in ic)
+
+let run_traces (files : string list) =
+  List.iter run_trace_file files;
+  List.iter print_endline (List.rev !out_lines);
+  Printf.printf "TRACES traces=%d steps=%d mismatches=%d\n" !traces !steps !mismatches
+
 let run (kind : string) (_ : string array) : string = failwith ("unknown kind " ^ kind)
